@@ -43,6 +43,7 @@ def run(chk):
     e10.run_U(chk, ("yastn.tensor", "yastn.initialize"), floor1=5, floor2=1)
 
 MUTANTS = [
+    ("contracted axes of a and b exchanged in the kernel call", "yastn/tensor/_contractions.py", "        data, struct_c, slices_c = _tensordot_nf(a, b, nout_a, nin_a, nin_b, nout_b)", "        data, struct_c, slices_c = _tensordot_nf(a, b, nout_a, nin_b, nin_a, nout_b)", "U4"),
     ("unfuse counts in native order", "yastn/tensor/_merging.py", "        nlegs = [nlegs[hi] for hi in axes_hf]  # axes_mf and axes_uf follow the order of tensor legs\n", "        nlegs = [nlegs[hi] for hi in sorted(axes_hf)]\n", "I4"),
     ("qr Qhfs from meta axes", "yastn/tensor/linalg.py", "    Qhfs = tuple(a.hfs[ii] for ii in out_hl) + (_Fusion(s=(sQ,)),)", "    Qhfs = tuple(a.hfs[ii] for ii in out_ml) + (_Fusion(s=(sQ,)),)", "L1"),
     ("broadcast forgets trans", "yastn/tensor/_contractions.py", "        ax = sum(b.mfs[ii][0] for ii in range(ax))  # unpack mfs\n        ax = b.trans[ax]  # transpose\n        if b.hfs[ax].tree != (1,):\n            raise YastnError('Second tensor`s leg specified in axes cannot be fused.')",
